@@ -6,7 +6,7 @@ import ast
 
 from ..model import func_nodes, norm, AnalysisError
 from ..cfg import calls_in, _walk_noscope
-from .util import (inline_locals, none_test, node_has_effect, effect_nodes, calls_method_of, recv_call, stmt_of, parent, cfg_nodes)
+from .util import (inline_locals, none_test, node_has_effect, effect_nodes, calls_method_of, recv_call, stmt_of, parent, cfg_nodes, attr_call)
 from .liveness import broken_pred, resolve_pred, wake_pred
 from .broken import kill_pred
 from .timeouts import _item_name, _is_call_of_item, _sends_result
@@ -240,9 +240,10 @@ def r_feeder(e, R):
     # ---- polarity / totality of the feed loop (scenario obligations): what is popped is sent, the sentinel ends the thread,
     # an empty buffer is waited for
     from . import scenario as SC
-    pops = [n for n in func_nodes(f) if isinstance(n, ast.Assign) and isinstance(n.targets[0], ast.Name) and isinstance(n.value, ast.Call)
-            and isinstance(n.value.func, ast.Name) and any(isinstance(d, ast.Assign) and isinstance(d.targets[0], ast.Name) and d.targets[0].id == n.value.func.id
-                                                            and isinstance(d.value, ast.Attribute) and d.value.attr in ("popleft", "pop") for d in func_nodes(f))]
+    def _m(c, attrs):
+        ac = attr_call(e, f, c)
+        return ac is not None and ac[1] in attrs and isinstance(ac[0], ast.Name) and ac[0].id in f.params
+    pops = [n for n in func_nodes(f) if isinstance(n, ast.Assign) and isinstance(n.targets[0], ast.Name) and isinstance(n.value, ast.Call) and _m(n.value, ("popleft", "pop"))]
     if len(pops) != 1:
         raise AnalysisError("feeder: the pop of the next object not recognised")
     ov = pops[0].targets[0].id
@@ -336,8 +337,7 @@ def r_feeder(e, R):
                 "the feeder writes to the pipe without the write lock although one exists: concurrent putters interleave their messages", e.loc(f, pn.ast),
                 g.fmt_path(bare) if bare else None)
     # an empty buffer is waited for (under the condition), a non-empty one is not
-    waits = [n for n in g.nodes for c in calls_in(n) if isinstance(c.func, ast.Name) and any(isinstance(d, ast.Assign) and isinstance(d.targets[0], ast.Name)
-             and d.targets[0].id == c.func.id and isinstance(d.value, ast.Attribute) and d.value.attr == "wait" for d in func_nodes(f))]
+    waits = [n for n in g.nodes for c in calls_in(n) if _m(c, ("wait",))]
     bufp = f.params[0]
     btests = [t for t in g.nodes if t.kind == "test" and t.ast is not None and any(isinstance(x, ast.Name) and x.id == bufp for x in ast.walk(t.ast))]
     if not waits or not btests:
@@ -696,9 +696,8 @@ def r_user_fmt(e, R):
             out |= set(f.params[1:3])                      # (exception, failed object)
         if f.qualname == a.feeder.qualname:
             for n in func_nodes(f):
-                if isinstance(n, ast.Assign) and isinstance(n.targets[0], ast.Name) and isinstance(n.value, ast.Call) and isinstance(n.value.func, ast.Name) \
-                        and any(isinstance(d, ast.Assign) and isinstance(d.targets[0], ast.Name) and d.targets[0].id == n.value.func.id and isinstance(d.value, ast.Attribute)
-                                and d.value.attr in ("popleft", "pop") for d in func_nodes(f)):
+                ac_ = attr_call(e, f, n.value) if isinstance(n, ast.Assign) and isinstance(n.value, ast.Call) else None
+                if ac_ is not None and isinstance(n.targets[0], ast.Name) and ac_[1] in ("popleft", "pop") and isinstance(ac_[0], ast.Name) and ac_[0].id in f.params:
                     out.add(n.targets[0].id)
             out |= {h.name for n in func_nodes(f) if isinstance(n, ast.Try) for h in n.handlers if h.name}
         if f.qualname in a.manager_funcs:
